@@ -1,5 +1,37 @@
-(* C09 — property theorems (placeholder until the model is built). *)
-From WI Require Import Lib.Base Lib.Info Model.State Proofs.State.
-Theorem C09_placeholder : True.
-Proof. exact I. Qed.
-Print Assumptions C09_placeholder.
+(* C09 — results do not depend on what was inspected before.  Statements only. *)
+From WI Require Import Lib.Base Model.State Proofs.State.
+From WI Require gen.Scan.
+
+(* T1: every package-level variable of the module, as scanned in the source now, is never
+   written after initialisation (directly, through a local alias, or through a parameter), or is
+   one of the two classified ones with exactly the classified write sites *)
+Theorem C09_globals_benign : globals_benign gen.Scan.globals = true.
+Proof. exact globals_benign_now. Qed.
+Print Assumptions C09_globals_benign.
+
+(* the invariant holds in every reachable state: what the rest of the program can see of the
+   curve table never changes (only spare capacity does), for every capacity *)
+Theorem C09_invariant : forall init hist, state_ok init = true ->
+  let st := fold_left (fun s rs => fst (step s rs)) hist init in
+  view st = view init /\ state_ok st = true.
+Proof. exact history_invariant. Qed.
+Print Assumptions C09_invariant.
+
+(* over all finite histories: the answers an input gets are those it gets in a fresh process *)
+Theorem C09_history_independent : forall init hist rs, state_ok init = true ->
+  snd (step (fold_left (fun s x => fst (step s x)) hist init) rs) = snd (step init rs).
+Proof. exact history_independent. Qed.
+Print Assumptions C09_history_independent.
+
+Theorem C09_spare_capacity_really_written :
+  let e := {| ce_name := [80%N]; ce_basex := {| backing := [1; 2; 0; 0]%N; slen := 2 |}; ce_basey := [7; 8]%N |} in
+  state_ok [e] = true /\
+  backing (ce_basex (hd e (fst (step [e] [(0%nat, [1; 2; 7; 8]%N)])))) = [1; 2; 7; 8]%N /\
+  snd (step [e] [(0%nat, [1; 2; 7; 8]%N)]) = [Some true].
+Proof. exact spare_capacity_written. Qed.
+Print Assumptions C09_spare_capacity_really_written.
+
+Theorem C09_visible_growth_refuted : exists e t,
+  snd (bad_match e t) <> snd (bad_match (fst (bad_match e t)) t).
+Proof. exact visible_growth_would_break_it. Qed.
+Print Assumptions C09_visible_growth_refuted.
